@@ -559,14 +559,25 @@ func (em *emitter) emitAssignmentNode(node *ast.Assignment) {
 				expr = op.Expr
 			}
 			typ := em.typ(expr)
-			reg := em.emitExpr(expr, typ)
 			var field reflect.StructField
 			if typ.Kind() == reflect.Pointer {
 				field, _ = typ.Elem().FieldByName(v.Ident)
 			} else {
 				field, _ = typ.FieldByName(v.Ident)
 			}
-			index := em.fb.makeFieldIndex(field.Index)
+			fieldIndex := field.Index
+			if typ.Kind() == reflect.Struct {
+				// If expr selects a field, without pointer indirections, of a
+				// non-local struct variable, as in 'v.a.b = x', address the
+				// field in the variable and not in a copy of 'v.a'.
+				if root, path, ok := em.nonLocalStructField(expr); ok {
+					expr = root
+					typ = em.typ(root)
+					fieldIndex = append(path, fieldIndex...)
+				}
+			}
+			reg := em.emitExpr(expr, typ)
+			index := em.fb.makeFieldIndex(fieldIndex)
 			if nonLocalStruct, ok := em.varStore.nonLocalVarIndex(expr); ok {
 				addresses[i] = em.addressNonLocalStructSelector(nonLocalStruct, reg, index, typ, pos, node.Type)
 			} else {
